@@ -380,6 +380,32 @@ for opname in ("__add__", "__rmul__"):
         c.no_raise()
 
 
+# a substance ASSEMBLED from parts (one element added more than once) and then added to a material enters with the mass of what was assembled
+@contract(f"{MAT}.__add__", ["C11", "C10"], name="Material.__add__[substance-operand-assembled-from-parts]")
+def _(c):
+    c.bound = "methanol assembled as CH3 + OH (sum of substances) and as CH3 .add(H) .add(O); amounts symbolic; both normalisation modes"
+    c.assume_nonzero_divisors = True
+    for mode in ("NUMBER_FRACTION", "MASS_FRACTION"):
+        for how in ("sum-of-substances", "elements-added-one-by-one"):
+            def pre(b, mode=mode, how=how):
+                norm = b.getattr(b.cls(NORM), mode)
+                p0 = b.real("p0")
+                m1 = b.new(MAT, b.dict({"H2O": p0}), norm_type=norm)
+                if how == "sum-of-substances":
+                    s2 = b.call(b.getattr(b.new(SUB, b.dict({"C": 1, "H": 3})), "__add__"), b.new(SUB, b.dict({"O": 1, "H": 1})))
+                else:
+                    s2 = b.new(SUB, "CH3")
+                    b.call(b.getattr(s2, "add"), "H")
+                    b.call(b.getattr(s2, "add"), "O", 1)
+                return dict(args=[m1, s2], env=dict(p0=p0, ms=[_mass("H2O", True), _mass("CH4O", True)], s2=s2))
+            c.scenario(f"{mode}[{how}]", pre)
+    c.requires("p0 > 0")
+    c.ensures("[comp.proportion for comp in result.components.values()] == [p0, 1.0] or [comp.proportion for comp in result.components.values()] == [p0, 1]", "one-component-per-operand-substance-with-its-amount")
+    c.ensures("all([near(comp.component_mass.value('Da'), m) for comp, m in zip(result.components.values(), ms)])", "component-masses-are-those-of-the-substances-given")
+    c.ensures("sorted([(k, v.proportion) for k, v in s2.components.items()]) == [('C', 1), ('H', 4), ('O', 1)]", "the-assembled-substance-keeps-its-counts")
+    c.no_raise()
+
+
 def _fr(b, n=3):
     return dict(env=dict(ps=[b.real(f"p{i}") for i in range(n)], ms=[b.real(f"m{i}") for i in range(n)], c=b.real("c")))
 
